@@ -725,6 +725,29 @@ def fixed_points(col):
         ('slug', {'text': 'a -- b — c', 'incoming': 'utf-8',
                   'errors': 'strict'}),
     ]
+    # pure-ASCII text in codecs that are NOT supersets of ASCII: every
+    # byte is below 0x80, the text is plain, and still the bytes have to be
+    # transcoded (wide and 7-bit stateful codecs, with and without BOM)
+    import codecs
+    for inc in ('utf-16-le', 'UTF-16LE', 'utf-16-be', 'utf-32-le',
+                'utf-32-be', 'utf-16', 'utf-32', 'utf-7', 'hz',
+                'iso2022_jp', 'iso2022_kr', 'cp037', 'cp500'):
+        try:
+            codecs.lookup(inc)
+        except LookupError:
+            continue
+        for text in ('hi', 'A', '0', 'plain ascii text', '+-', '~{', 'a+b~c',
+                     'x' * 64):
+            try:
+                raw = text.encode(inc)
+            except UnicodeEncodeError:
+                continue
+            for enc in ('utf-8', 'UTF8', 'latin-1', 'ascii', 'utf-16-le'):
+                table.append(('encode-bytes', {
+                    'hex': raw.hex(), 'incoming': inc, 'encoding': enc,
+                    'errors': 'strict'}))
+            table.append(('decode', {'hex': raw.hex(), 'incoming': inc,
+                                     'errors': 'strict'}))
     for fam, case in table:
         case['fam'] = fam
         cls = _dispatch(col, eu, su, case, sub)
